@@ -15,6 +15,10 @@ pub struct Bad {
     pub position: &'static str,
     pub class: String,
     pub req: Req,
+    /// Some: these exact bytes are sent on a fresh connection (the uid placeholder
+    /// "@UID@" is substituted), optionally followed by a half-close
+    pub raw: Option<Vec<u8>>,
+    pub half_close: bool,
 }
 
 fn valid_body() -> Value {
@@ -31,7 +35,44 @@ fn valid_query() -> Vec<(String, String)> {
 
 pub fn gen_bad(rng: &mut Rng) -> Bad {
     let big = "18446744073709551616";
-    match rng.below(7) {
+    match rng.below(9) {
+        // ---- path variables that are not UTF-8 after percent-decoding
+        7 => {
+            let bad = *rng.pick(&["%FF", "caf%C3", "%C0%AF", "%ED%A0%80", "a%80b", "%fe%ff"]);
+            let (t, class) = match rng.below(3) {
+                0 => (format!("/p/{bad}/ok"), "string-variable-not-utf8"),
+                1 => (format!("/p/ok/{bad}"), "string-variable-not-utf8"),
+                _ => (format!("/w/a/{bad}/b"), "wildcard-segment-not-utf8"),
+            };
+            let m = if t.starts_with("/p/") { "PUT" } else { "GET" };
+            Bad { position: "path", class: class.into(), req: Req::new(m, &t), raw: None, half_close: false }
+        }
+        // ---- transfer faults after a prefix that decodes on its own
+        8 => {
+            let body = serde_json::to_vec(&valid_body()).unwrap();
+            let mut raw = b"POST /json HTTP/1.1\r\nhost: vmon\r\ncontent-type: application/json\r\nx-vmon-uid: @UID@\r\n".to_vec();
+            let (class, half_close) = match rng.below(3) {
+                0 => {
+                    raw.extend_from_slice(b"transfer-encoding: chunked\r\n\r\n");
+                    raw.extend_from_slice(format!("{:x}\r\n", body.len()).as_bytes());
+                    raw.extend_from_slice(&body);
+                    raw.extend_from_slice(b"\r\nzz\r\nmore\r\n0\r\n\r\n");
+                    ("complete-json-then-bad-chunk-size", false)
+                }
+                1 => {
+                    raw.extend_from_slice(format!("content-length: {}\r\n\r\n", body.len() + 40).as_bytes());
+                    raw.extend_from_slice(&body);
+                    ("complete-json-but-content-length-not-reached", true)
+                }
+                _ => {
+                    raw.extend_from_slice(b"transfer-encoding: chunked\r\n\r\n");
+                    raw.extend_from_slice(format!("{:x}\r\n", body.len() + 10).as_bytes());
+                    raw.extend_from_slice(&body);
+                    ("complete-json-then-eof-inside-chunk", true)
+                }
+            };
+            Bad { position: "transfer", class: class.into(), req: Req::new("POST", "/json"), raw: Some(raw), half_close }
+        }
         // ---- path variables of PathN {u:u64,i:i64,f:f64,flag:bool,e:Color}
         0 => {
             let mut vals = ["1", "-1", "1.5", "true", "red"].map(|s| s.to_string());
@@ -51,7 +92,7 @@ pub fn gen_bad(rng: &mut Rng) -> Bad {
             };
             vals[idx] = bad.to_string();
             let t = format!("/pn/{}", vals.join("/"));
-            Bad { position: "path", class: class.into(), req: Req::new("GET", &t) }
+            Bad { position: "path", class: class.into(), req: Req::new("GET", &t), raw: None, half_close: false }
         }
         // ---- query fields of QAll
         1 | 2 => {
@@ -118,7 +159,7 @@ pub fn gen_bad(rng: &mut Rng) -> Bad {
             };
             let mut t = b"/q?".to_vec();
             t.extend(enc_pairs(rng, &q));
-            Bad { position: "query", class, req: Req::raw_target("GET", &t) }
+            Bad { position: "query", class, req: Req::raw_target("GET", &t), raw: None, half_close: false }
         }
         // ---- JSON body fields / shape
         3 | 4 => {
@@ -235,6 +276,8 @@ pub fn gen_bad(rng: &mut Rng) -> Bad {
                 position: "json-body",
                 class,
                 req: Req::new("POST", "/json").header("content-type", "application/json").body(&body),
+                raw: None,
+                half_close: false,
             }
         }
         // ---- content type other than the endpoint's
@@ -254,7 +297,7 @@ pub fn gen_bad(rng: &mut Rng) -> Bad {
                 5 => ("/json", b"multipart/form-data; boundary=x", "json-endpoint-gets-multipart"),
                 _ => ("/form", b"text/html", "form-endpoint-gets-unsupported-type"),
             };
-            Bad { position: "content-type", class: class.into(), req: Req::new("POST", path).header_bytes("content-type", ct).body(&body) }
+            Bad { position: "content-type", class: class.into(), req: Req::new("POST", path).header_bytes("content-type", ct).body(&body), raw: None, half_close: false }
         }
         // ---- urlencoded body
         _ => {
@@ -296,6 +339,8 @@ pub fn gen_bad(rng: &mut Rng) -> Bad {
                 position: "form-body",
                 class,
                 req: Req::new("POST", "/form").header("content-type", "application/x-www-form-urlencoded").body(&body),
+                raw: None,
+                half_close: false,
             }
         }
     }
@@ -336,7 +381,9 @@ pub fn run(seed: u64, threads: usize, per_thread: usize) -> Report {
                         let mut bad = gen_bad(&mut rng);
                         let uid = next_uid();
                         bad.req = bad.req.uid(uid);
-                        let framing = if !bad.req.body.is_empty() && rng.chance(1, 3) {
+                        let framing = if bad.raw.is_some() {
+                            "raw"
+                        } else if !bad.req.body.is_empty() && rng.chance(1, 3) {
                             bad.req.chunked = Some(vec![1 + rng.usize(40)]);
                             "chunked"
                         } else {
@@ -345,11 +392,28 @@ pub fn run(seed: u64, threads: usize, per_thread: usize) -> Report {
                         if conn.is_none() {
                             conn = Conn::connect(addr).ok();
                         }
-                        let Some(c) = conn.as_mut() else {
+                        let Some(_) = conn.as_mut() else {
                             rep.inconclusive("connect failed");
                             continue;
                         };
-                        let wire = bad.req.encode();
+                        let wire = match &bad.raw {
+                            Some(raw) => {
+                                let s = String::from_utf8_lossy(raw).replace("@UID@", &uid.to_string());
+                                s.into_bytes()
+                            }
+                            None => bad.req.encode(),
+                        };
+                        if bad.raw.is_some() {
+                            // its own connection, closed afterwards
+                            match Conn::connect(addr) {
+                                Ok(nc) => conn = Some(nc),
+                                Err(_) => {
+                                    rep.inconclusive("connect failed");
+                                    continue;
+                                }
+                            }
+                        }
+                        let c = conn.as_mut().unwrap();
                         if c.send(&wire).is_err() {
                             conn = None;
                             rep.inconclusive("send failed on reused connection");
@@ -359,6 +423,10 @@ pub fn run(seed: u64, threads: usize, per_thread: usize) -> Report {
                         let wit = |extra: Value| json!({"seed": seed, "mode": mode_tag, "thread": t, "case": k, "position": bad.position,
                             "class": bad.class, "framing": framing, "request": head, "detail": extra});
                         rep.eval(format!("{}|{}|{framing}|{mode_tag}", bad.position, bad.class));
+                        if bad.half_close {
+                            c.shutdown_write();
+                        }
+                        let one_shot = bad.raw.is_some();
                         match c.read_response(false) {
                             Ok(resp) => {
                                 if !(400..500).contains(&resp.status) {
@@ -395,6 +463,9 @@ pub fn run(seed: u64, threads: usize, per_thread: usize) -> Report {
                                     wit(json!({"error": format!("{e:?}").chars().take(300).collect::<String>()})),
                                 );
                             }
+                        }
+                        if one_shot {
+                            conn = None;
                         }
                         // a handler must not have run for this uid: checked against the log afterwards
                         pending.push((uid, format!("C10:{}:{}:handler-invoked", bad.position, bad.class.split("-required-").next().unwrap_or(&bad.class)), wit(json!({}))));
